@@ -141,12 +141,20 @@ def cellContainsPoint (c : Cell) (ll : V2) : PyM Float :=
   (getPentagon c).bind fun pentagon =>
     (dodecForward (fromLonLat ll) c.origin).bind fun pp => containsPoint pentagon pp
 
-/-- the 1 + 25 sample coordinates of `lonlat_to_cell` -/
+/-- the 1 + 25 sample coordinates of `lonlat_to_cell`: a spiral in the plane tangent to the sphere at the query point (repaired) -/
 def samples (ll : V2) (hres : Nat) : List V2 :=
-  let scale : Float := 50 / Float.ofNat (2 ^ hres)
+  let scale : Float := (50 / Float.ofNat (2 ^ hres)) * (pi / 180)
+  let p := toCartesian (fromLonLat ll)
+  let ref : V3 := if p.2.2.abs < 0.9 then (0.0, 0.0, 1.0) else (1.0, 0.0, 0.0)
+  let e1 := v3cross ref p
+  let n := v3length e1
+  let e1 : V3 := (e1.1 / n, e1.2.1 / n, e1.2.2 / n)
+  let e2 := v3cross p e1
   ll :: (List.range 25).map fun i =>
     let R := (Float.ofNat i / 25) * scale
-    (Float.cos (Float.ofNat i) * R + ll.1, Float.sin (Float.ofNat i) * R + ll.2)
+    let a := Float.cos (Float.ofNat i) * R
+    let b := Float.sin (Float.ofNat i) * R
+    toLonLat (toSpherical (p.1 + a * e1.1 + b * e2.1, p.2.1 + a * e1.2.1 + b * e2.2.1, p.2.2 + a * e1.2.2 + b * e2.2.2))
 
 /-- the search loop of `lonlat_to_cell`: first new estimate containing the point wins; otherwise the candidates with their scores -/
 def searchLoop (ll : V2) (resolution : Int) : List V2 → List Nat → List (Est × Float) → PyM (Sum Nat (List (Est × Float)))
